@@ -42,6 +42,8 @@ def configs(tier, seed, prefix="index"):
                     Td = T if d == 1 else max(2, T - 2 * (d - 1))
                     if gi > 0:
                         Td = max(2, Td - 1)
+                    if algo == "HCT" and gi == 0 and part == "B" and d == 1:
+                        Td = 9 if q == 0 else 11  # reaches the refresh of round 8 with cells last pulled before round 4
                     name = "%s-%s-%s-d%d-T%d-g%d" % (prefix, algo, part, d, Td, gi)
                     out.append({"name": name, "algo": algo, "part": part, "d": d, "T": Td, "params": g, "cost": Td * d * arity(part, d) * (5 if algo == "VHCT" else 1)})
     out.append({"name": "twin-" + prefix, "algo": "HCT", "part": "B", "d": 1, "T": 3, "params": {}, "twin": True, "expect_fail": "twin"})
